@@ -180,6 +180,9 @@ Definition read_resp_done (s : ssess) (c : term) : ssess * bool :=
   | None => (s, false)
   end.
 
+(* a message body shorter than an ephemeral key (the runner marks it so) *)
+Definition short_junk (c : term) : bool := match c with TAtom 996 => true | _ => false end.
+
 (* readHandshake: (new state, no error?). The state may change even on error
    (the Noise state advances when a message is read before a later check fails). *)
 Definition xread_handshake (s : ssess) (w : wire) : ssess * bool :=
@@ -187,7 +190,14 @@ Definition xread_handshake (s : ssess) (w : wire) : ssess * bool :=
   | None => (s, false)
   | Some n =>
     if negb (x_init s) && (x_hs s =? 0) && (n =? 0) then
-      match w with W0 e ts kc sg => read_init_hello s e ts kc sg | _ => (s, false) end
+      match w with
+      | W0 e ts kc sg => read_init_hello s e ts kc sg
+      (* anything long enough to hold an ephemeral key is consumed by the Noise state
+         (the first pattern has no key yet, so nothing fails before the payload is
+         parsed): the session cannot read an InitHello again *)
+      | WC _ c => if short_junk c then (s, false) else (spent s 1, false)
+      | _ => (s, false)
+      end
     else if x_init s && (x_hs s =? 0) && (n =? 1) then
       match w with W1 e c => read_resp_hello s e c | _ => (s, false) end
     else if negb (x_init s) && (x_hs s =? 1) && (n =? 2) then
